@@ -54,6 +54,12 @@ func Setup() {
 			Heads = append(Heads, n)
 		}
 	}
+	// deterministic order (Go map iteration is random natively)
+	for i := 1; i < len(Heads); i++ {
+		for j := i; j > 0 && Heads[j] < Heads[j-1]; j-- {
+			Heads[j], Heads[j-1] = Heads[j-1], Heads[j]
+		}
+	}
 	Heads = append(Heads, specialForms...)
 	Heads = append(Heads, "no-such-symbol")
 }
@@ -62,7 +68,7 @@ func sym(n string) MalType      { return Symbol{Val: n} }
 func lst(xs ...MalType) MalType { return List{Val: xs} }
 
 func gen() *lib.Gen {
-	return &lib.Gen{Depth: 1, Width: vrt.Param("width", 1), StrLen: 1, Alphabet: "a(", NameAlphabet: "ab", Lazy: true}
+	return &lib.Gen{Depth: 1, Width: vrt.Param("width", 1), StrLen: 1, Alphabet: "a(", NameAlphabet: "ab", Lazy: true, Ints: []int{0, 1, -1, 7}}
 }
 
 func paramList(tag string) MalType {
@@ -127,7 +133,8 @@ func form(tag string, depth int, inner bool) MalType {
 // Harness_form: EVAL of an arbitrary form returns; wrapped in try/catch it returns :caught or a value.
 func Harness_form() {
 	f := form("f", vrt.Param("depth", 1), false)
-	if vrt.Bool("wrapped") {
+	wrapped := vrt.Bool("wrapped")
+	if wrapped {
 		f = lst(sym("try"), f, lst(sym("catch"), sym("e"), NewKeyword("caught")))
 	}
 	e := env.NewSubordinateEnv(Base)
@@ -137,6 +144,90 @@ func Harness_form() {
 		vrt.Observe("head", h.Val)
 	}
 	vrt.Assert(!panicked, "panic escaped EVAL: "+msg)
-	_ = err
+	if wrapped {
+		vrt.Assert(err == nil, "an evaluation error was not catchable by try/catch")
+	}
+	vrt.Reach("end")
+}
+
+// tmpl builds a quasiquote template with unquote / splice-unquote forms that
+// have 0..2 operands, at list and vector element positions and at the top.
+func tmpl(tag string, depth int) MalType {
+	k := vrt.Concrete(vrt.Choice(tag+"/t", 6))
+	uq := func(name string) MalType {
+		n := vrt.Concrete(vrt.Choice(tag+"/n", 3))
+		elems := []MalType{sym(name)}
+		for i := 0; i < n; i++ {
+			elems = append(elems, operand(tag+"/u"+string(rune('0'+i)), 0))
+		}
+		return List{Val: elems}
+	}
+	switch k {
+	case 0:
+		return uq("unquote")
+	case 1:
+		return uq("splice-unquote")
+	case 2:
+		return operand(tag+"/d", 0)
+	}
+	if depth == 0 {
+		return sym("x")
+	}
+	n := vrt.Concrete(vrt.Choice(tag+"/w", 3))
+	elems := make([]MalType, n)
+	for i := range elems {
+		elems[i] = tmpl(tag+"/"+string(rune('0'+i)), depth-1)
+	}
+	if k == 3 {
+		return Vector{Val: elems}
+	}
+	if k == 4 {
+		return HashMap{Val: map[string]MalType{"k": tmpl(tag+"/m", depth-1)}}
+	}
+	return List{Val: elems}
+}
+
+// Harness_quasi: quasiquote / quasiquoteexpand of arbitrary templates never panic.
+func Harness_quasi() {
+	head := "quasiquote"
+	if vrt.Bool("expand") {
+		head = "quasiquoteexpand"
+	}
+	f := lst(sym(head), tmpl("t", vrt.Param("depth", 2)))
+	e := env.NewSubordinateEnv(Base)
+	panicked, msg := vrt.NoPanic(func() { _, _ = lisp.EVAL(context.Background(), f, e) })
+	vrt.Assert(!panicked, "panic escaped EVAL (quasiquote): "+msg)
+	vrt.Reach("end")
+}
+
+// Harness_call: calling closures, macros and let forms with arbitrary parameter lists and argument counts.
+func Harness_call() {
+	params := paramList("p")
+	body := operand("body", 0)
+	var f MalType
+	argc := vrt.Concrete(vrt.Choice("argc", 4))
+	args := make([]MalType, argc)
+	for i := range args {
+		args[i] = vrt.IntRange("a"+string(rune('0'+i)), 0, 3)
+	}
+	fnForm := lst(sym("fn"), params, body)
+	switch vrt.Concrete(vrt.Choice("how", 5)) {
+	case 0: // direct call
+		f = List{Val: append([]MalType{fnForm}, args...)}
+	case 1: // through apply
+		f = lst(sym("apply"), fnForm, List{Val: append([]MalType{sym("list")}, args...)})
+	case 2: // as a macro
+		f = lst(sym("do"), lst(sym("defmacro"), sym("m"), fnForm), List{Val: append([]MalType{sym("m")}, args...)})
+	case 3: // through map
+		f = lst(sym("map"), fnForm, List{Val: append([]MalType{sym("list")}, args...)})
+	default: // let with the parameter list as binding vector
+		f = lst(sym("let"), params, body)
+	}
+	if vrt.Bool("wrapped") {
+		f = lst(sym("try"), f, lst(sym("catch"), sym("e"), NewKeyword("caught")))
+	}
+	e := env.NewSubordinateEnv(Base)
+	panicked, msg := vrt.NoPanic(func() { _, _ = lisp.EVAL(context.Background(), f, e) })
+	vrt.Assert(!panicked, "panic escaped EVAL (call): "+msg)
 	vrt.Reach("end")
 }
